@@ -35,6 +35,7 @@ enum Ty {
     F64,
     List(Box<Ty>),
     Tuple(Vec<Ty>),
+    Opt(Box<Ty>),
     Named(String),  // local struct / enum
     Extern(String), // external C-like enum, modelled by its discriminant (N)
     Unknown,
@@ -48,6 +49,7 @@ impl Ty {
             Ty::Ptr => "(option N)".into(),
             Ty::Unit => "unit".into(),
             Ty::List(t) => format!("(list {})", t.coq()),
+            Ty::Opt(t) => format!("(option {})", t.coq()),
             Ty::Tuple(ts) => {
                 if ts.is_empty() {
                     "unit".into()
@@ -81,6 +83,9 @@ struct Cfg {
     skip_fns: HashSet<String>,
     only_fns: Option<HashSet<String>>,
     val_is_2w: bool,
+    extern_w: bool,                          // extern enum constants are functions of W
+    newtypes: HashSet<String>,               // single-field tuple structs represented by their field
+    extern_methods: HashMap<String, String>, // "Type::method" -> Gallina function (W, receiver, args) of the hand-written support file
 }
 
 struct Tr {
@@ -90,6 +95,7 @@ struct Tr {
     unit_enums: HashSet<String>, // local C-like enums with explicit discriminants are kept as inductives
     consts: BTreeMap<String, (Ty, String)>, // file-level consts: name -> (type, gallina)
     sigs: HashMap<(String, String), Sig>,
+    variant_fields: HashMap<(String, String), Vec<String>>,
 }
 
 struct Fx<'a> {
@@ -108,6 +114,17 @@ fn path_str(p: &Path) -> Vec<String> {
 }
 
 impl Tr {
+    /// the representation of a local type by name: a newtype is its field
+    fn named(&self, n: &str) -> Ty {
+        if self.cfg.newtypes.contains(n) {
+            if let Some((_, t)) = self.structs.get(n).and_then(|f| f.first()) {
+                if *t != Ty::Unknown {
+                    return t.clone();
+                }
+            }
+        }
+        Ty::Named(n.to_string())
+    }
     fn ty(&self, t: &Type) -> R<Ty> {
         Ok(match t {
             Type::Reference(r) => {
@@ -157,6 +174,11 @@ impl Tr {
                     self.ty(&t)?
                 } else if self.cfg.extern_enums.contains_key(last) {
                     Ty::Extern(last.into())
+                } else if self.cfg.newtypes.contains(last) {
+                    match self.structs.get(last).and_then(|f| f.first()) {
+                        Some((_, t)) if *t != Ty::Unknown => t.clone(),
+                        _ => Ty::Named(last.into()),
+                    }
                 } else if self.structs.contains_key(last) || self.enums.contains_key(last) {
                     Ty::Named(last.into())
                 } else {
@@ -179,7 +201,9 @@ impl<'a> Fx<'a> {
     }
     fn resolve_self(&self, t: Ty) -> Ty {
         match t {
-            Ty::Named(n) if n == "Self" => Ty::Named(self.self_ty.clone()),
+            Ty::Named(n) if n == "Self" => self.tr.named(&self.self_ty),
+            Ty::Named(n) => self.tr.named(&n),
+            Ty::Opt(t) => Ty::Opt(Box::new(self.resolve_self(*t))),
             o => o,
         }
     }
@@ -218,6 +242,10 @@ impl<'a> Fx<'a> {
             Expr::Field(f) => {
                 let (root, mut fs) = self.place(&f.base)?;
                 let bt = self.place_ty(&root, &fs)?;
+                if matches!(&f.member, Member::Unnamed(i) if i.index == 0) && !matches!(bt, Ty::Named(_)) {
+                    // `.0` of a newtype that is represented by its field
+                    return Ok((root, fs));
+                }
                 let owner = match bt {
                     Ty::Named(n) => n,
                     _ => return err("field of a non-struct place", e.span()),
@@ -317,6 +345,24 @@ impl<'a> Fx<'a> {
                     Ok((format!("({})", atoms.join(", ")), Ty::Tuple(tys)))
                 }
             }
+            Expr::Struct(s) if s.path.segments.len() >= 2 && self.tr.variant_fields.contains_key(&({ let sg = path_str(&s.path); if sg[sg.len() - 2] == "Self" { self.self_ty.clone() } else { sg[sg.len() - 2].clone() } }, path_str(&s.path).last().unwrap().clone())) => {
+                let sg = path_str(&s.path);
+                let owner = if sg[sg.len() - 2] == "Self" { self.self_ty.clone() } else { sg[sg.len() - 2].clone() };
+                let var = sg.last().unwrap().clone();
+                let names = self.tr.variant_fields.get(&(owner.clone(), var.clone())).unwrap().clone();
+                let mut vals: HashMap<String, String> = HashMap::new();
+                for fv in &s.fields {
+                    if let Member::Named(i) = &fv.member {
+                        let (a, _) = self.expr(&fv.expr, pre)?;
+                        vals.insert(i.to_string(), a);
+                    }
+                }
+                let mut args = vec![];
+                for f in &names {
+                    args.push(paren(&vals.get(f).cloned().ok_or(format!("T8: field {} missing in {}::{}", f, owner, var))?));
+                }
+                Ok((format!("({}_{} {})", owner, var, args.join(" ")), Ty::Named(owner)))
+            }
             Expr::Struct(s) => {
                 let name = self.type_of_path(&s.path)?;
                 let fields = self.tr.structs.get(&name).ok_or(format!("T8: unknown struct literal {}", name))?.clone();
@@ -358,6 +404,18 @@ impl<'a> Fx<'a> {
                     self.calls.push(("".into(), ")".into()));
                     Ok((v, t))
                 }
+            }
+            Expr::Try(t) => {
+                let (a, ty) = self.expr(&t.expr, pre)?;
+                let inner = match ty {
+                    Ty::Opt(t) => *t,
+                    _ => Ty::Unknown,
+                };
+                let v = self.fresh("q");
+                let none = self.ret_expr(Some("None"));
+                let _ = writeln!(pre, "match {} with None => {} | Some {} =>", a, none, v);
+                self.calls.push(("".into(), " end".into()));
+                Ok((v, inner))
             }
             Expr::MethodCall(m) => self.method_call(m, pre),
             Expr::Call(c) => self.call(c, pre),
@@ -431,7 +489,9 @@ impl<'a> Fx<'a> {
                 Ok((format!("(u_cast {} ({}_discr W {}))", self.bits_of(t), n, a), to))
             }
             (Ty::Bool, Ty::Int(_)) => Ok((format!("(if {} then 1 else 0)", a), to)),
-            (Ty::Ptr, Ty::Int(_)) | (Ty::Int(_), Ty::Ptr) | (Ty::Ptr, Ty::Ptr) => Ok((a, to)),
+            // an integer cast to a raw pointer keeps the low `usize` bits; it stays a number here
+            (Ty::Int(_), Ty::Ptr) => Ok((format!("(u_cast W {})", a), Ty::Int("usize".into()))),
+            (Ty::Ptr, Ty::Int(_)) | (Ty::Ptr, Ty::Ptr) => Ok((a, to)),
             (Ty::Unknown, Ty::Int(t)) => Ok((format!("(u_cast {} {})", self.bits_of(t), a), to)),
             _ => err(&format!("cast from {:?} to {:?}", from, to), sp),
         }
@@ -462,7 +522,8 @@ impl<'a> Fx<'a> {
         let owner = if segs[segs.len() - 2] == "Self" { self.self_ty.clone() } else { segs[segs.len() - 2].clone() };
         let item = segs.last().unwrap();
         if let Some(prefix) = self.tr.cfg.extern_enums.get(&owner) {
-            return Ok((format!("{}{}", prefix, item), Ty::Extern(owner)));
+            let c = format!("{}{}", prefix, item);
+            return Ok((if self.tr.cfg.extern_w { format!("({} W)", c) } else { c }, Ty::Extern(owner)));
         }
         if let Some(vs) = self.tr.enums.get(&owner) {
             if vs.iter().any(|(v, _)| v == item) {
@@ -663,7 +724,21 @@ impl<'a> Fx<'a> {
                         let owner = self.type_of_path(&p.path)?;
                         let (a, _) = self.expr(inner.args.first().ok_or("T8: from_repr()")?, pre)?;
                         let (d, _) = self.expr(args[0], pre)?;
-                        return Ok((format!("({}_from_repr_or {} {})", owner, a, d), Ty::Extern(owner)));
+                        return Ok((format!("({}_from_repr_or W {} {})", owner, paren(&a), paren(&d)), Ty::Extern(owner)));
+                    }
+                }
+            }
+        }
+        if name == "unwrap_or" {
+            if let Expr::Call(c) = &*m.receiver {
+                if let Expr::Path(p) = &*c.func {
+                    let sg = path_str(&p.path);
+                    if sg.len() >= 2 && sg[sg.len() - 1] == "from_repr" {
+                        // strum::FromRepr on an external C-like enum modelled by its discriminant
+                        let owner = if sg[sg.len() - 2] == "Self" { self.self_ty.clone() } else { sg[sg.len() - 2].clone() };
+                        let (a, _) = self.expr(c.args.first().ok_or("T8: from_repr()")?, pre)?;
+                        let (d, _) = self.expr(args[0], pre)?;
+                        return Ok((format!("({}_from_repr_or W {} {})", owner, paren(&a), paren(&d)), Ty::Extern(owner)));
                     }
                 }
             }
@@ -739,12 +814,34 @@ impl<'a> Fx<'a> {
             self.place_set(&root, &fs, &new, pre);
             return Ok(("tt".into(), Ty::Unit));
         }
+        // a method supplied by the hand-written support file (pure; W first, then the receiver)
+        {
+            let (ra, rt0) = self.expr(&m.receiver, &mut String::new())?;
+            let tn = match &rt0 { Ty::Named(n) | Ty::Extern(n) => n.clone(), _ => self.self_ty.clone() };
+            let key = format!("{}::{}", tn, name);
+            if let Some(f) = self.tr.cfg.extern_methods.get(&key).cloned() {
+                let (ra, _) = self.expr(&m.receiver, pre)?;
+                let mut call = format!("({} W {}", f, paren(&ra));
+                for a in &args {
+                    let (v, _) = self.expr(a, pre)?;
+                    let _ = write!(call, " {}", paren(&v));
+                }
+                call.push(')');
+                let rty = if f.ends_with("_opt") { Ty::Opt(Box::new(Ty::Int("Val".into()))) } else { Ty::Int("Val".into()) };
+                return Ok((call, rty));
+            }
+            let _ = ra;
+        }
         // a translated method of a local type
         let (root, fs) = self.place(&m.receiver)?;
         let rt = self.place_ty(&root, &fs)?;
         let owner = match &rt {
             Ty::Named(n) => n.clone(),
-            _ => return err(&format!("method `{}` on a receiver of unknown type", name), m.span()),
+            _ => {
+                // a method of a newtype represented by its field: resolve through the function's own type
+                if self.tr.sigs.contains_key(&(self.self_ty.clone(), name.clone())) { self.self_ty.clone() } else {
+                return err(&format!("method `{}` on a receiver of unknown type", name), m.span()); }
+            }
         };
         let sig = self.tr.sigs.get(&(owner.clone(), name.clone())).cloned().ok_or(format!(
             "T8: unsupported construct at line {}: call of untranslated method {}::{}", m.span().start().line, owner, name))?;
@@ -804,7 +901,9 @@ impl<'a> Fx<'a> {
     }
     fn resolve_self_in(&self, t: &Ty, owner: &str) -> Ty {
         match t {
-            Ty::Named(n) if n == "Self" => Ty::Named(owner.to_string()),
+            Ty::Named(n) if n == "Self" => self.tr.named(owner),
+            Ty::Named(n) => self.tr.named(n),
+            Ty::Opt(t) => Ty::Opt(Box::new(self.resolve_self_in(t, owner))),
             o => o.clone(),
         }
     }
@@ -860,6 +959,9 @@ impl<'a> Fx<'a> {
         }
         // `Self(x)` / `Name(x)`: tuple struct constructor
         let owner = if segs[0] == "Self" { self.self_ty.clone() } else { segs[0].clone() };
+        if self.tr.cfg.newtypes.contains(&owner) && args.len() == 1 {
+            return self.expr(args[0], pre);
+        }
         if let Some(fields) = self.tr.structs.get(&owner) {
             if fields.len() == args.len() {
                 let mut s = format!("(mk{}", owner);
@@ -873,7 +975,14 @@ impl<'a> Fx<'a> {
         }
         if segs[0] == "Ok" || segs[0] == "Some" {
             let (v, t) = self.expr(args[0], pre)?;
-            return Ok((format!("(Some {})", paren(&v)), Ty::Tuple(vec![t])));
+            return Ok((format!("(Some {})", paren(&v)), Ty::Opt(Box::new(t))));
+        }
+        if segs[0] == "Err" {
+            // the error value itself (a message) is not observable through the ABI
+            return Ok(("None".into(), Ty::Opt(Box::new(Ty::Unknown))));
+        }
+        if self.tr.cfg.newtypes.contains(&owner) && args.len() == 1 {
+            return self.expr(args[0], pre);
         }
         err(&format!("call of {}", joined), c.span())
     }
@@ -1121,8 +1230,45 @@ impl<'a> Fx<'a> {
                 (a, t, None)
             }
         };
-        let mut out = format!("match {} with\n", scrut);
         let save = (self.tyenv.clone(), self.alias.clone());
+        let pat_is_extern = m.arms.iter().any(|a| match &a.pat {
+            Pat::Path(pp) => { let sg = path_str(&pp.path); sg.len() >= 2 && self.tr.cfg.extern_enums.contains_key(&sg[sg.len() - 2]) }
+            _ => false,
+        });
+        if matches!(sty, Ty::Extern(_)) || pat_is_extern {
+            // a C-like external enum is its discriminant: the match becomes a chain of comparisons
+            let mut out = String::new();
+            let mut closers = 0;
+            for arm in &m.arms {
+                self.tyenv = save.0.clone();
+                self.alias = save.1.clone();
+                let body: Vec<Stmt> = match &*arm.body {
+                    Expr::Block(b) => b.block.stmts.clone(),
+                    e => vec![Stmt::Expr(e.clone(), None)],
+                };
+                match &arm.pat {
+                    Pat::Wild(_) => {
+                        let b = self.branch(&body, conts, tail)?;
+                        let _ = write!(out, "(\n{})", b);
+                        for _ in 0..closers { out.push(')'); }
+                        self.tyenv = save.0; self.alias = save.1;
+                        return Ok(out);
+                    }
+                    Pat::Path(pp) => {
+                        let c = self.path_expr(pp)?.0;
+                        let b = self.branch(&body, conts, tail)?;
+                        let _ = write!(out, "if {} =? {} then (\n{}) else (", scrut, c, b);
+                        closers += 1;
+                    }
+                    p => return err("pattern on an external enum", p.span()),
+                }
+            }
+            out.push_str("GPanic P_match");
+            for _ in 0..closers { out.push(')'); }
+            self.tyenv = save.0; self.alias = save.1;
+            return Ok(out);
+        }
+        let mut out = format!("match {} with\n", scrut);
         for arm in &m.arms {
             if arm.guard.is_some() {
                 return err("match guard", arm.span());
@@ -1285,6 +1431,9 @@ fn main() {
         skip_fns: HashSet::new(),
         only_fns: None,
         val_is_2w: true,
+        extern_w: false,
+        newtypes: HashSet::new(),
+        extern_methods: HashMap::new(),
     };
     let mut emit_consts = true;
     let mut i = 1;
@@ -1307,6 +1456,12 @@ fn main() {
                 cfg.const_w = true;
                 cfg.const_prefix = v;
                 emit_consts = false;
+            }
+            "--extern-consts-of-w" => { cfg.extern_w = true; i += 1; continue; }
+            "--newtype" => { cfg.newtypes.extend(v.split(',').map(|s| s.to_string())); }
+            "--extern-method" => {
+                let (a, b) = v.split_once('=').expect("--extern-method T::m=f");
+                cfg.extern_methods.insert(a.into(), b.into());
             }
             "--skip" => {
                 cfg.skip_fns.extend(v.split(',').map(|s| s.to_string()));
@@ -1335,7 +1490,7 @@ fn main() {
 fn run(src: &str, types: &[String], imports: &[String], cfg: Cfg, emit_consts: bool) -> R<String> {
     let text = std::fs::read_to_string(src).map_err(|e| format!("T8: cannot read {}: {}", src, e))?;
     let file = syn::parse_file(&text).map_err(|e| format!("T8: cannot parse {}: {}", src, e))?;
-    let mut tr = Tr { cfg, structs: BTreeMap::new(), enums: BTreeMap::new(), unit_enums: HashSet::new(), consts: BTreeMap::new(), sigs: HashMap::new() };
+    let mut tr = Tr { cfg, structs: BTreeMap::new(), enums: BTreeMap::new(), unit_enums: HashSet::new(), consts: BTreeMap::new(), sigs: HashMap::new(), variant_fields: HashMap::new() };
     let want: HashSet<&String> = types.iter().collect();
     // pass 0: register names so that types can refer to each other
     for it in &file.items {
@@ -1367,11 +1522,15 @@ fn run(src: &str, types: &[String], imports: &[String], cfg: Cfg, emit_consts: b
                 let mut ds = vec![];
                 for v in &e.variants {
                     let mut ts = vec![];
+                    let mut names = vec![];
                     for f in v.fields.iter() {
-                        if f.ident.is_some() {
-                            return err("enum variant with named fields", v.span());
+                        if let Some(i) = &f.ident {
+                            names.push(i.to_string());
                         }
                         ts.push(tr.ty(&f.ty)?);
+                    }
+                    if !names.is_empty() {
+                        tr.variant_fields.insert((e.ident.to_string(), v.ident.to_string()), names);
                     }
                     ds.push((v.ident.to_string(), v.discriminant.as_ref().map(|(_, e)| e.clone())));
                     vs.push((v.ident.to_string(), ts));
@@ -1487,11 +1646,12 @@ fn run(src: &str, types: &[String], imports: &[String], cfg: Cfg, emit_consts: b
         let mut header = format!("(* {}::{} — {}:{} *)\nDefinition {}_{} (W : N) (trap : bool)", sig.owner, sig.name, src_rel(src), line, sig.owner, sig.name);
         let mut out_tys: Vec<String> = vec![];
         if let Some(m) = sig.recv {
-            let _ = write!(header, " (self : {})", sig.owner);
-            fx.tyenv.insert("self".into(), Ty::Named(sig.owner.clone()));
+            let st = tr.named(&sig.owner);
+            let _ = write!(header, " (self : {})", st.coq());
+            fx.tyenv.insert("self".into(), st.clone());
             if m {
                 fx.outs.push("self".into());
-                out_tys.push(sig.owner.clone());
+                out_tys.push(st.coq());
             }
         }
         for (n, t, is_mut) in &sig.params {
@@ -1553,6 +1713,9 @@ fn run(src: &str, types: &[String], imports: &[String], cfg: Cfg, emit_consts: b
         o.push('\n');
     }
     for n in &emitted {
+        if tr.cfg.newtypes.contains(n) {
+            continue;
+        }
         if let Some(fs) = tr.structs.get(n) {
             let fields: Vec<String> = fs.iter().map(|(f, t)| format!("{}_{} : {}", n, f, t.coq())).collect();
             let _ = writeln!(o, "Record {} := mk{} {{ {} }}.", n, n, fields.join("; "));
@@ -1609,7 +1772,7 @@ fn ret_ty(tr: &Tr, t: &Type) -> R<Ty> {
         if seg.ident == "Result" || seg.ident == "Option" {
             if let PathArguments::AngleBracketed(a) = &seg.arguments {
                 if let Some(GenericArgument::Type(inner)) = a.args.first() {
-                    return Ok(Ty::Tuple(vec![tr.ty(inner)?])); // 1-tuple marks `option`
+                    return Ok(Ty::Opt(Box::new(tr.ty(inner)?)));
                 }
             }
         }
